@@ -10,12 +10,14 @@
    the application reports one validator index in its key-pair callbacks, never tells the node to watch only, and the
    validator list has at most 2^16 entries (SignL.v .. SignLApi.v): the node asks for at most one block signature; once it
    has signed, its own Commit slot keeps exactly that commit and NO further call changes the view (the commit lock, at all
-   of its sites including a PrepareRequest arriving after the commit) until the next epoch.
-   The history-level clauses about proposals, responses and pre-commits (no two per view / at all), "never asks for a view
-   change" as a statement about broadcasts, and the recovery contents are NOT proved; they
+   of its sites including a PrepareRequest arriving after the commit) until the next epoch; every ChangeView the node
+   broadcasts in the epoch precedes its signature request - after it has signed, no call makes it broadcast a ChangeView - and
+   the table of view-change requests (its own request included) is never written again (SignLCV.v, Typed.v, SignLNoCV.v).
+   The history-level clauses about proposals, responses and pre-commits (no two per view / at all), "every retransmission is
+   identical" over whole histories, view monotonicity of the outgoing messages and the recovery contents are NOT proved; they
    are decided by the monitors on the real library over the generated histories (DESIGN.md section 0.1). *)
 From Coq Require Import ZArith List.
-From DbftV Require Import P03 P02 SignLApi.
+From DbftV Require Import P03 P02 SignLApi SignLCV Typed SignLNoCV.
 Open Scope Z_scope.
 
 Definition own_commit_or_precommit_sent (s : nstate) : Prop :=
@@ -100,3 +102,36 @@ Theorem after_its_commit_the_node_never_leaves_the_view cfg st g ev sc st' tr mi
   ViewNumber st' = ViewNumber st /\ nsign tr = 0%nat /\ slot (CommitPayloads st') mi = slot (CommitPayloads st) mi /\ MyIndex st' = MyIndex st.
 Proof. exact (commit_lock cfg st g ev sc st' tr mi). Qed.
 Print Assumptions after_its_commit_the_node_never_leaves_the_view.
+
+(* "once it has broadcast a commit it never asks for a view change", on the node's outgoing messages: in every history of an
+   epoch, every broadcast of a ChangeView payload comes before the first block-signature request ... *)
+Theorem every_change_view_of_the_epoch_precedes_the_signature cfg st g mi g1 s p g2 :
+  Epoch cfg st g -> KS mi g -> zlen (Validators st) <= 65536 ->
+  g = g1 ++ (s, CBroadcast p) :: g2 -> p_type p = ChangeViewT -> nsign g1 = 0%nat.
+Proof. exact (change_views_precede_the_signature cfg st g mi g1 s p g2). Qed.
+Print Assumptions every_change_view_of_the_epoch_precedes_the_signature.
+
+(* ... so no call made after the node has signed - payloads of any kind, timeouts, transactions, notifications - makes it
+   broadcast a ChangeView *)
+Theorem after_its_commit_the_node_broadcasts_no_change_view cfg st g ev sc st' tr mi :
+  Epoch cfg st g -> continues ev -> step cfg st ev sc = Ok (st', tr) -> KS mi (g ++ tr) -> zlen (Validators st) <= 65536 -> nsign g <> 0%nat ->
+  no_change_view_broadcast tr.
+Proof. intros HE Hc Hs Hk Hz Hn s p Hin. exact (no_change_view_after_the_signature cfg st g ev sc st' tr mi s p HE Hc Hs Hk Hz Hn Hin). Qed.
+Print Assumptions after_its_commit_the_node_broadcasts_no_change_view.
+
+(* ... and the table of view-change requests - the node's own request and those of its peers - is never written again: no view
+   change is asked for, and none is recorded *)
+Theorem after_its_commit_the_node_records_no_view_change_request cfg st g ev sc st' tr mi :
+  Epoch cfg st g -> continues ev -> step cfg st ev sc = Ok (st', tr) -> KS mi (g ++ tr) -> zlen (Validators st) <= 65536 -> nsign g <> 0%nat ->
+  ChangeViewPayloads st' = ChangeViewPayloads st.
+Proof. exact (no_view_change_request_after_the_signature cfg st g ev sc st' tr mi). Qed.
+Print Assumptions after_its_commit_the_node_records_no_view_change_request.
+
+(* in every reachable state the PreCommit table holds PreCommits only and the Commit table Commits only (what the node
+   re-broadcasts from its own slots is what it says it is) *)
+Theorem stored_commits_and_precommits_are_what_they_say cfg st i p :
+  Reach cfg st ->
+  (nth_chk (PreCommitPayloads st) i = Some (Some p) -> p_type p = PreCommitT) /\
+  (nth_chk (CommitPayloads st) i = Some (Some p) -> p_type p = CommitT).
+Proof. intros HR. destruct (typed_reach cfg st HR) as [A B]. split; [apply A|apply B]. Qed.
+Print Assumptions stored_commits_and_precommits_are_what_they_say.
